@@ -25,6 +25,10 @@ static time_t vclock = 1700000000;
 time_t __real_time(time_t *t);
 time_t __wrap_time(time_t *t) { if (t) *t = vclock; return vclock; }
 
+/* ------------------------------------------------------------------ file transport observation */
+FILE *__real_fopen(const char *path, const char *mode);
+FILE *__wrap_fopen(const char *path, const char *mode) { kx_event(0, "fopen path=%s mode=%s", path ? path : "-", mode ? mode : "-"); return __real_fopen(path, mode); }
+
 /* ------------------------------------------------------------------ simulated sockets */
 #define SIM_FD0 5000
 #define MAXCONN 256
@@ -333,6 +337,8 @@ int kx_net_dispatch(char **tok, int ntok, int *handled) {
 		for (i = 2; i < ntok; i++) o += (size_t)snprintf(spec + o, sizeof spec - o, "%s ", tok[i]);
 		for (i = 0; i < n_all_easy; i++) if (all_easy[i] && all_easy[i]->id == id && all_easy[i]->multi) { easy_set_completion(all_easy[i], spec); return 0; }
 		return -1; }
+	if (is("urisplit")) { char *sc = NULL, *ho = NULL, *pa = NULL; unsigned po = 0; int rc = KSI_UriSplitBasic(tok[1], &sc, &ho, &po, &pa);
+		kx_out(" scheme=%s host=%s port=%u path=%s", sc ? sc : "(null)", ho ? ho : "(null)", po, pa ? pa : "(null)"); KSI_free(sc); KSI_free(ho); KSI_free(pa); return rc; }
 	if (is("set_aggr")) return KSI_CTX_setAggregator(kx_ctx(atoi(tok[1])), nz(tok[2]), nz(tok[3]), nz(tok[4]));
 	if (is("set_ext")) return KSI_CTX_setExtender(kx_ctx(atoi(tok[1])), nz(tok[2]), nz(tok[3]), nz(tok[4]));
 	if (is("set_puburl")) return KSI_CTX_setPublicationUrl(kx_ctx(atoi(tok[1])), nz(tok[2]));
